@@ -122,7 +122,8 @@ impl Property for C17 {
                 art.limit = limit;
                 let pic = picture(&mut r, size);
                 if embedded {
-                    art.embedded = Some((pic, if mime { Some("image/jpeg".to_string()) } else { None }));
+                    // (the MIME type may be an empty string: `type: ` is a well-formed line)
+                    art.embedded = Some((pic, if mime { Some(if size % 2 == 1 { String::new() } else { "image/jpeg".to_string() }) } else { None }));
                     art.cover = Some(b"should not be used".to_vec());
                 } else {
                     art.cover = Some(pic);
@@ -201,7 +202,30 @@ impl Property for C17 {
 
         let mut sc = Scenario::new("album-art", mix(&[cfg.seed, 17, i]));
         sc.world.art = Some(art.clone());
-        sc.callers.push((ms(20), vec![Step::Do(Req::AlbumArt { uri: uri.to_string() })]));
+        // In a third of the cases the same client has loaded (or tried to load) the art of OTHER songs before, with a
+        // different outcome each: nothing learnt from one song may leak into the next load
+        let mut steps = Vec::new();
+        let mut earlier: Vec<(String, ArtStore)> = Vec::new();
+        if i % 3 == 2 {
+            for k in 0..r.range(1, 3) {
+                let u = format!("earlier song {}/{}.mp3", k, r.below(1000));
+                let mut a2 = ArtStore { embedded: None, cover: None, limit: art.limit, readpicture_supported: art.readpicture_supported, embedded_ack: 0, cover_ack: 0, ack_after_partial_output: false };
+                match r.below(5) {
+                    0 => {} // neither has data
+                    1 => a2.cover = Some(picture(&mut r, 10)),
+                    2 => a2.embedded = Some((picture(&mut r, 10), Some("image/gif".into()))),
+                    3 => a2.cover_ack = 50,
+                    _ => a2.embedded_ack = 50,
+                }
+                steps.push(Step::Do(Req::AlbumArt { uri: u.clone() }));
+                earlier.push((u, a2));
+            }
+            sc.world.art_by_uri = earlier.clone();
+            acc.inc("loads_after_earlier_loads_of_other_songs");
+        }
+        steps.push(Step::Do(Req::AlbumArt { uri: uri.to_string() }));
+        let main_seq = steps.len() - 1;
+        sc.callers.push((ms(20), steps));
         let others = r.below(3);
         for o in 0..others {
             sc.callers.push((ms(20 + o as u64), vec![Step::Do(Req::Raw { shape: r.below(7) as u64 }), Step::Think(ms(r.below(120) as u64)), Step::Do(Req::Raw { shape: 1 })]));
@@ -226,7 +250,21 @@ impl Property for C17 {
         c01::check(acc, i, &sc, &out, &a, true);
         let (want, want_reqs) = expected(&art, uri);
         // result
-        let got = a.calls().into_iter().find(|c| c.call.caller == 0).and_then(|c| c.end.map(|e| e.2));
+        // the earlier loads must be right as well
+        for (k, (u, a2)) in earlier.iter().enumerate() {
+            let (w, _) = expected(a2, u);
+            let g = a.calls().into_iter().find(|c| c.call.caller == 0 && c.call.seq == k).and_then(|c| c.end.map(|e| e.2));
+            let ok = match (&g, &w) {
+                (Some(CallResult::Art(g)), Ok(w)) => g == w,
+                (Some(CallResult::ErrResponse { error, .. }), Err(code)) => error.code == *code,
+                _ => false,
+            };
+            if !ok {
+                acc.violation(i, None, format!("earlier album_art({:?}) returned {} ({})", u, g.as_ref().map(|g| g.short()).unwrap_or_else(|| "nothing".into()), class), sess::detail(&sc, &out).set("class", class.clone()));
+                return;
+            }
+        }
+        let got = a.calls().into_iter().find(|c| c.call.caller == 0 && c.call.seq == main_seq).and_then(|c| c.end.map(|e| e.2));
         let ok = match (&got, &want) {
             (Some(CallResult::Art(g)), Ok(w)) => g == w,
             (Some(CallResult::ErrResponse { error, .. }), Err(code)) => error.code == *code,
@@ -251,6 +289,7 @@ impl Property for C17 {
             if let EvKind::ServerGot { line, .. } = &e.kind {
                 if line.starts_with(b"readpicture") || line.starts_with(b"albumart") {
                     match tokenize(line) {
+                        Ok((_, args)) if args.len() == 2 && earlier.iter().any(|(u, _)| u.as_bytes() == &args[0][..]) => {}
                         Ok((n, args)) if args.len() == 2 => reqs.push((String::from_utf8_lossy(&n).to_string(), String::from_utf8_lossy(&args[0]).to_string(), String::from_utf8_lossy(&args[1]).parse().unwrap_or(usize::MAX))),
                         other => {
                             acc.violation(i, None, format!("malformed art request {:?}: {:?}", String::from_utf8_lossy(line), other.map(|x| x.1.len())), sess::detail(&sc, &out));
@@ -333,7 +372,7 @@ impl Property for C17 {
     fn meta(&self, _cfg: &Cfg, _acc: &Acc) -> Meta {
         Meta {
             level: "exploration",
-            rule: "Client::album_art against the simulated server holding the picture: directed grid of chunk limits {1,2,64,4096,8192} x sizes {0,1,limit-1,limit,limit+1,2*limit,3*limit+7,5000,70000} x source {embedded, cover file reached through an empty readpicture reply or through ACK 5} x MIME present/absent; every other ACK code {1,2,3,4,50,52,56} on either command (must propagate), neither source, zero-byte pictures, albumart unknown; plus random sizes/limits; payloads incl. protocol look-alikes; 0-2 other callers and notifications running concurrently, chopped replies, read caps; oracle: returned bytes and MIME equal the stored picture / None / the server's error code, and the request lines seen by the server are readpicture|albumart <uri> <offset> in the documented fallback order with offsets starting at 0, strictly increasing, never skipping bytes, finitely many (the minimal sequence 0, limit, 2*limit, ... is counted separately); non-trivial = load with >=2 chunks; distinct by (limit, size class, source, mime, concurrency)".into(),
+            rule: "Client::album_art against the simulated server holding the picture: directed grid of chunk limits {1,2,64,4096,8192} x sizes {0,1,limit-1,limit,limit+1,2*limit,3*limit+7,5000,70000} x source {embedded, cover file reached through an empty readpicture reply or through ACK 5} x MIME present (incl. the empty string)/absent; in a third of the cases the same client has first loaded the art of 1-2 OTHER songs with different outcomes (nothing, cover only, embedded, errors), whose results are checked too; every other ACK code {1,2,3,4,50,52,56} on either command (must propagate), neither source, zero-byte pictures, albumart unknown; plus random sizes/limits; payloads incl. protocol look-alikes; 0-2 other callers and notifications running concurrently, chopped replies, read caps; oracle: returned bytes and MIME equal the stored picture / None / the server's error code, and the request lines seen by the server are readpicture|albumart <uri> <offset> in the documented fallback order with offsets starting at 0, strictly increasing, never skipping bytes, finitely many (the minimal sequence 0, limit, 2*limit, ... is counted separately); non-trivial = load with >=2 chunks; distinct by (limit, size class, source, mime, concurrency)".into(),
             nontrivial_set: "nontrivial",
             assumptions: vec![
                 "well-behaved server: never a 0-byte chunk before the end, constant `size`".into(),
